@@ -3,6 +3,7 @@ CONSTANTS
   Bug = "none"
   Sweeps = {"sim"}
   PairDepth = 2
+  NearDepth = 2
   DeepDepth = 8
   EmitCases = TRUE
 INIT Init
